@@ -7,6 +7,7 @@ import (
 	"context"
 	"encoding/hex"
 	"fmt"
+	"github.com/google/uuid"
 	"io"
 	"os"
 	"path/filepath"
@@ -55,6 +56,9 @@ type Req struct {
 	// SignDoc asks the certificate authority for the CA bundle (after it has read the primary key
 	// version and its certificate, before it signs). It models a concurrent operator.
 	Interleave func()
+	// WithCancel, when set, receives the cancel function of the context the (library) run executes
+	// under: the caller may cancel while the run is in flight.
+	WithCancel func(cancel func())
 }
 
 func (q Req) String() string {
@@ -93,6 +97,10 @@ func captureStdout(f func()) string {
 // scratch is a directory for the CLI's --uefi file.
 func Endorse(r *core.Run, a *worlda.Authority, vcs endorse.VersionControl, q Req, scratch string) (stdout string, err error) {
 	r.Eventf("op %s", q)
+	// sev.canonicalizeRequest draws a random image GUID through google/uuid's package-level
+	// reader (crypto/rand by default): pin it to the run, or the signed bytes differ per execution
+	uuid.SetRand(core.NewDetReader(r.Seed ^ 0x1d1d ^ uint64(r.NEvents())<<16))
+	defer uuid.SetRand(nil)
 	run := func() {
 		if q.ViaCLI {
 			err = endorseCLI(a, vcs, q, scratch)
@@ -140,7 +148,15 @@ func endorseLib(a *worlda.Authority, vcs endorse.VersionControl, q Req) error {
 			kc.CA = &interleavingCA{CertificateAuthority: kc.CA, f: q.Interleave}
 		}
 	}
-	ctx := output.NewContext(v.Ctx, &output.Options{Quiet: true, Overwrite: q.Overwrite})
+	base := v.Ctx
+	if q.WithCancel != nil {
+		// the caller's context can be cancelled while the run is in flight
+		var cancel context.CancelFunc
+		base, cancel = context.WithCancel(base)
+		defer cancel()
+		q.WithCancel(cancel)
+	}
+	ctx := output.NewContext(base, &output.Options{Quiet: true, Overwrite: q.Overwrite})
 	return endorse.VirtualFirmware(endorse.NewContext(ctx, ec))
 }
 
